@@ -12,7 +12,7 @@ import sys
 
 REPO = os.environ.get('VERIF_REPO', '/repo')
 VERIF = os.path.dirname(os.path.dirname(os.path.abspath(__file__)))
-WORK = os.path.join(VERIF, '.work')
+WORK = os.environ.get('VERIF_WORK') or os.path.join(VERIF, '.work')     # caches; a scratch evaluation uses its own (tools/run_seeded.py)
 GEN = os.path.join(WORK, 'gen')
 
 CLANG_ARGS = ['clang++', '-std=c++17', '-fsyntax-only', '-DNDEBUG', '-DDSPLIB_FFT_CACHE_SIZE=4',
